@@ -1,5 +1,6 @@
 \* (ii) UDP - LASSO: the code as found, deviations NOT excused.  THIS RUN MUST FAIL:
 \* TLC reports "Temporal property UTermination was violated" with a lasso - either the de-framer
+\* (bounds: sequences of at most 1 datagram - enough for both lassos)
 \* going round read -> inner -> after -> read on a finished stream (back-edge), or stuttering with
 \* g2 done and g1 parked in udpConn.Read.  harness/drivers/c12 runs it and demands the failure.
 CONSTANTS
@@ -10,7 +11,7 @@ CONSTANTS
   BatchSize = 32
   BatchBuf = 22
   High = 100
-  MaxT = 2
+  MaxT = 1
   MaxU = 1
   TSeqs <- TAll
   USeqs <- USmall
@@ -19,7 +20,8 @@ CONSTANTS
   Paces = {"burst"}
   DevSpin = TRUE
   DevNoUnblock = TRUE
+  DevAliasFlush = FALSE
 SPECIFICATION USpec
-INVARIANTS UTypeOK UDatagrams UComplete UCompleteAny UEncoded UFlushed UBuf
+INVARIANTS UTypeOK UDatagrams UComplete UCompleteAny UEncoded UFlushed UMutex UBuf
 PROPERTIES UDelivMonotone UEventuallyFlushed UTermination
 CHECK_DEADLOCK FALSE
